@@ -272,11 +272,8 @@ func H_C15_logout() {
 		o1 := f.h.VerifOut()
 		zz.Assert(len(o1) == 0, "C19: a refused Logout is transmitted")
 		zz.Reach("stopped")
-		if zz.Symbolic() {
-			zz.Assert(zz.AfterFuncs() == n0+1, "C15: Stop() does not arm the close-timeout timer when its Logout could not be sent")
-		}
 		if !cancelled() {
-			zz.Assume(zz.AfterFuncs() == n0+1)
+			zz.Assert(zz.AfterFuncs() == n0+1, "C15: Stop() neither cancels nor arms the close-timeout timer when its Logout could not be sent")
 			zz.AfterFuncFire(n0)
 		}
 		zz.Assert(cancelled(), "C15: the session context is not cancelled when the close timeout elapses after a Logout that could not be sent")
